@@ -92,8 +92,7 @@ def selections(d, kinds):
     out['not-slice'] = ~out['slice']
     out['multi-or'] = S.MultiOrState([out['range'], out['mask'], out['roi']])
     # many-way or whose first member keeps its masks memoised (the members are the very objects above)
-    # (the categorical selections are left out: their single-element views are the recorded known findings and would only be re-reported through this combination)
-    out['multi-or-memo'] = S.MultiOrState([out['inequality'], out['element'], out['ineq-cid-cid'], out['range']])
+    out['multi-or-memo'] = S.MultiOrState([out['inequality'], out['category'], out['element'], out['ineq-cid-cid'], out['range']])
     out['xor-deep'] = (out['slice-stepped'] ^ out['inequality']) | (~out['range'])
     return out
 
